@@ -301,6 +301,271 @@ def render_cmap(rng, defs, lens, first, plain_meta=False):
 
 
 # ------------------------------------------------------------------------------------------
+# layouts for the EXTRACTED renderer (coq/Spec/CMapRender.v, the one the round-trip theorem is about)
+#   blank B = 's' | 't' ; in-string item S = B | 'cr' | 'lf' | 'crlf' ; item W = S | ('c', text, eol)
+#   the Python functions L_* below are a second, independent rendering of the same layout; the text
+#   used in a case is the extracted renderer's, and a difference between the two is reported
+# ------------------------------------------------------------------------------------------
+
+def sections_of_defs(rng, defs, lens, first):
+    """section list [('cs', [(lo,hi,len)]) | ('bfchar', [(code,len,units)]) | ('bfrange', [(lo,hi,len,[units..])])]"""
+    groups = []
+    i = 0
+    while i < len(defs):
+        kind = 'char' if defs[i][0] == 'char' else 'range'
+        if kind == 'char' and rng.random() < 0.25:
+            kind = 'range1'
+        j = i + 1
+        while j < len(defs) and ('char' if defs[j][0] == 'char' else 'range') == kind and rng.random() < 0.7:
+            j += 1
+        groups.append((kind, defs[i:j]))
+        i = j
+
+    def codespace():
+        ls = lens if rng.random() < 0.8 else rng.sample(lens, rng.randint(1, len(lens)))
+        return ('cs', [((first[ln][0] << (8 * (ln - 1))), (((first[ln][1] + 1) << (8 * (ln - 1))) - 1), ln) for ln in ls])
+    cs_at = rng.choice([0, 0, 0, 0, None, rng.randint(0, len(groups))])
+    secs = []
+    for gi, (kind, ds) in enumerate(groups):
+        if cs_at == gi:
+            secs.append(codespace())
+        if kind == 'char':
+            secs.append(('bfchar', [(d[2], d[1], list(d[3])) for d in ds]))
+        else:
+            lines = []
+            for d in ds:
+                if d[0] == 'char':
+                    lines.append((d[2], d[2], d[1], [list(d[3])]))
+                elif d[0] == 'incr':
+                    lines.append((d[2], d[3], d[1], [list(d[4])]))
+                else:
+                    lines.append((d[2], d[3], d[1], [list(u) for u in d[4]]))
+            secs.append(('bfrange', lines))
+    if cs_at is not None and cs_at >= len(groups):
+        secs.append(codespace())
+    return secs
+
+
+def lay_blank(rng):
+    return rng.choice(['s', 's', 's', 't'])
+
+
+def lay_gap0(rng):
+    return [lay_blank(rng) for _ in range(rng.choice([0, 0, 1, 1, 1, 2, 3]))]
+
+
+def lay_gap1(rng):
+    return [lay_blank(rng) for _ in range(rng.choice([1, 1, 1, 2, 3]))]
+
+
+def lay_eol(rng):
+    return rng.choice(['lf', 'lf', 'lf', 'cr', 'crlf'])
+
+
+def lay_comment(rng):
+    t = rng.choice(['', ' a comment', '%%EndComments', ' <00> endbfrange', 'x\ry\nz', '\t[ <0041> ]',
+                    ''.join(chr(rng.randrange(256)) for _ in range(rng.randint(0, 6)))])
+    return ('c', t, lay_eol(rng))
+
+
+def lay_witem(rng):
+    r = rng.random()
+    return lay_blank(rng) if r < 0.3 else lay_eol(rng) if r < 0.88 else lay_comment(rng)
+
+
+def lay_brk1(rng):
+    if rng.random() < 0.5:
+        return [lay_eol(rng)]
+    return [lay_witem(rng) for _ in range(rng.choice([1, 2, 2, 3, 4]))]
+
+
+def lay_brk0(rng):
+    return [lay_witem(rng) for _ in range(rng.choice([0, 0, 1, 1, 2, 3]))]
+
+
+def lay_bits(rng, n):
+    r = rng.random()
+    if r < 0.3:
+        return ''
+    if r < 0.55:
+        return '1' * n
+    return ''.join(rng.choice('01') for _ in range(rng.choice([n, n, n, max(0, n - 1), n + 2])))
+
+
+def lay_sgap(rng):
+    return [rng.choice(['s', 's', 't', 'lf', 'cr', 'crlf']) for _ in range(rng.choice([0, 0, 0, 0, 1, 1, 2]))]
+
+
+def short(rng, l):
+    """a layout list may be too short: the renderer continues with the default"""
+    return l[:rng.randrange(len(l) + 1)] if l and rng.random() < 0.12 else l
+
+
+def lay_tlay(rng, units):
+    return short(rng, [(lay_bits(rng, 4), lay_sgap(rng)) for _ in units])
+
+
+def lay_line(rng, kind, line):
+    if kind == 'cs':
+        ln, tg = line[2], []
+    elif kind == 'bfchar':
+        ln, tg = line[1], [(lay_gap1(rng), lay_tlay(rng, line[2]))]
+    else:
+        ln, tg = line[2], short(rng, [(lay_gap1(rng), lay_tlay(rng, u)) for u in line[3]])
+    return {'c1': lay_bits(rng, 2 * ln), 'g1': lay_gap0(rng), 'c2': lay_bits(rng, 2 * ln), 'g2': lay_gap0(rng),
+            'br': 1 if rng.random() < 0.3 else 0, 'open': lay_gap0(rng), 'tgts': tg, 'close': lay_gap0(rng), 'end': lay_brk1(rng)}
+
+
+def lay_layout(rng, secs):
+    if rng.random() < 0.05:
+        return {'pre': [], 'gap0': [], 'gap1': [], 'brk': [], 'dict': [], 'n': 12, 'secs': [], 'post': []}     # all defaults
+    return {'pre': lay_brk0(rng), 'gap0': short(rng, [lay_gap0(rng) for _ in range(2)]),
+            'gap1': short(rng, [lay_gap1(rng) for _ in range(11)]), 'brk': short(rng, [lay_brk1(rng) for _ in range(11)]),
+            'dict': short(rng, [lay_brk0(rng) for _ in range(7)]), 'n': rng.choice([12, 12, 1, 0, 100, 10 ** 21 + 7]),
+            'secs': short(rng, [{'gap': lay_gap1(rng), 'begin': lay_brk1(rng),
+                                 'lines': short(rng, [lay_line(rng, k, x) for x in ls]), 'end': lay_brk1(rng)} for k, ls in secs]),
+            'post': lay_brk0(rng)}
+
+
+# --- the case language ---
+def sx_w(w):
+    return L('c', xb(w[1]), w[2]) if isinstance(w, tuple) else w
+
+
+def sx_bits(b):
+    return b or '-'
+
+
+def sx_line(y):
+    return L('line', sx_bits(y['c1']), L(*y['g1']), sx_bits(y['c2']), L(*y['g2']), str(y['br']), L(*y['open']),
+             L('tgts', *[L(L(*g), L(*[L(sx_bits(b), L(*a)) for b, a in t])) for g, t in y['tgts']]), L(*y['close']),
+             L(*[sx_w(w) for w in y['end']]))
+
+
+def sx_layout(y):
+    ws = lambda l: L(*[sx_w(w) for w in l])
+    return L('layout', L('pre', *[sx_w(w) for w in y['pre']]), L('gap0', *[L(*g) for g in y['gap0']]),
+             L('gap1', *[L(*g) for g in y['gap1']]), L('brk', *[ws(b) for b in y['brk']]), L('dict', *[ws(b) for b in y['dict']]),
+             str(y['n']),
+             L('secs', *[L('sec', L(*s['gap']), ws(s['begin']), L('lines', *[sx_line(x) for x in s['lines']]), ws(s['end']))
+                         for s in y['secs']]),
+             L('post', *[sx_w(w) for w in y['post']]))
+
+
+def sx_secs(secs):
+    out = []
+    for k, ls in secs:
+        if k == 'cs':
+            out.append(L('cs', *[L(str(a), str(b), str(c)) for a, b, c in ls]))
+        elif k == 'bfchar':
+            out.append(L('bfchar', *[L(str(c), str(n), L(*[str(u) for u in t])) for c, n, t in ls]))
+        else:
+            out.append(L('bfrange', *[L(str(a), str(b), str(n), L(*[L(*[str(u) for u in t]) for t in ts])) for a, b, n, ts in ls]))
+    return L('secs', *out)
+
+
+# --- the second rendering (Python), line for line after the syntax, defaults as in the Coq record types ---
+L_EOL = {'cr': '\r', 'lf': '\n', 'crlf': '\r\n'}
+SP1, NL1 = ['s'], ['lf']
+LINE_DEFAULT = {'c1': '', 'g1': ['s'], 'c2': '', 'g2': ['s'], 'br': 0, 'open': [], 'tgts': [], 'close': [], 'end': NL1}
+SEC_DEFAULT = {'gap': SP1, 'begin': NL1, 'lines': [], 'end': NL1}
+
+
+def L_w(w):
+    if isinstance(w, tuple):
+        return '%' + ''.join(ch for ch in w[1] if ch not in '\r\n') + L_EOL[w[2]]
+    return L_EOL[w] if w in L_EOL else (' ' if w == 's' else '\t')
+
+
+def L_ws(l):
+    return ''.join(L_w(w) for w in l)
+
+
+def L_hex(bits, bs_):
+    out = ''
+    for i, ch in enumerate(bytes(bs_).hex()):
+        out += ch.upper() if i < len(bits) and bits[i] == '1' else ch
+    return out
+
+
+def nth(l, k, d):
+    return l[k] if k < len(l) else d
+
+
+def L_target(tl, units):
+    out = '<'
+    for i, u in enumerate(units):
+        b, a = nth(tl, i, ('', []))
+        out += L_hex(b, u.to_bytes(2, 'big')) + L_ws(a)
+    return out + '>'
+
+
+def L_code(bits, ln, v):
+    return '<' + L_hex(bits, v.to_bytes(ln, 'big')) + '>'
+
+
+def L_array(y, dst):
+    out = '[' + L_ws(y['open']) + L_target(nth(y['tgts'], 0, (SP1, []))[1], dst[0])
+    for i, t in enumerate(dst[1:]):
+        g, tl = nth(y['tgts'], i + 1, (SP1, []))
+        out += L_ws(g) + L_target(tl, t)
+    return out + L_ws(y['close']) + ']'
+
+
+def L_line(kind, y, x):
+    t0 = nth(y['tgts'], 0, (SP1, []))[1]
+    if kind == 'cs':
+        return L_code(y['c1'], x[2], x[0]) + L_ws(y['g1']) + L_code(y['c2'], x[2], x[1]) + L_ws(y['end'])
+    if kind == 'bfchar':
+        return L_code(y['c1'], x[1], x[0]) + L_ws(y['g1']) + L_target(t0, x[2]) + L_ws(y['end'])
+    head = L_code(y['c1'], x[2], x[0]) + L_ws(y['g1']) + L_code(y['c2'], x[2], x[1]) + L_ws(y['g2'])
+    if len(x[3]) == 1 and not (y['br'] and x[0] == x[1]):
+        return head + L_target(t0, x[3][0]) + L_ws(y['end'])
+    return head + L_array(y, x[3]) + L_ws(y['end'])
+
+
+def L_render(y, secs):
+    g0 = lambda k: L_ws(nth(y['gap0'], k, ['s']))
+    g1 = lambda k: L_ws(nth(y['gap1'], k, SP1))
+    br = lambda k: L_ws(nth(y['brk'], k, NL1))
+    bs1 = lambda k: L_ws(nth(y['brk'], k, ['s']))
+    dw = lambda k: L_ws(nth(y['dict'], k, ['s']))
+    out = L_ws(y['pre']) + '/CIDInit' + g0(0) + '/ProcSet' + g1(0) + 'findresource' + g1(1) + 'begin' + br(0)
+    out += (str(y['n'] % 10 ** 21).zfill(21) if y['n'] >= 10 ** 21 else str(y['n']))   # 21 digits at most
+    out += g1(2) + 'dict' + g1(3) + 'begin' + br(1) + 'begincmap' + br(2)
+    out += '/CIDSystemInfo' + dw(0) + '<<' + dw(1) + '/Registry' + dw(2) + '(Adobe)' + dw(3) + '/Ordering' + dw(4) + '(UCS)' + dw(5)
+    out += '/Supplement' + bs1(3) + '0' + dw(6) + '>>' + bs1(4) + 'def' + br(5)
+    out += '/CMapName' + g0(1) + '/Adobe-Identity-UCS' + g1(4) + 'def' + br(6)
+    out += '/CMapType' + g1(5) + '2' + g1(6) + 'def' + br(7)
+    names = {'cs': 'codespacerange', 'bfchar': 'bfchar', 'bfrange': 'bfrange'}
+    for i, (k, ls) in enumerate(secs):
+        s = nth(y['secs'], i, SEC_DEFAULT)
+        out += str(len(ls)) + L_ws(s['gap']) + 'begin' + names[k] + L_ws(s['begin'])
+        for j, x in enumerate(ls):
+            out += L_line(k, nth(s['lines'], j, LINE_DEFAULT), x)
+        out += 'end' + names[k] + L_ws(s['end'])
+    out += 'endcmap' + br(8) + 'CMapName' + g1(7) + 'currentdict' + g1(8) + '/CMap' + g1(9) + 'defineresource' + g1(10) + 'pop' + br(9)
+    out += 'end' + br(10) + 'end' + L_ws(y['post'])
+    return out.encode('latin-1')
+
+
+def extracted_render(pairs):
+    """[(layout, secs)] -> [bytes | None] through the extracted runner (built by the check before the cases are generated)"""
+    import os, vlib
+    exe = os.path.join(vlib.BUILD, 'ocaml', 'c15', 'run')
+    if not pairs or not os.path.exists(exe):
+        return [None] * len(pairs)
+    outs = vlib.run_lines(exe, [L('rendertext', sx_layout(y), sx_secs(s)) for y, s in pairs], timeout=600, shards=8)
+    res = []
+    for o in outs:
+        try:
+            res.append(bytes.fromhex(o[1:]) if o.startswith('x') else None)
+        except ValueError:
+            res.append(None)
+    return res
+
+
+# ------------------------------------------------------------------------------------------
 # cases
 # ------------------------------------------------------------------------------------------
 
@@ -324,7 +589,7 @@ def sx_units(u):
     return 'none' if u is None else L('some', *[str(x) for x in u])
 
 
-def make_case(rng, defs, lens, first, stream, expect=True, extra_texts=(), extra_probes=()):
+def make_case(rng, defs, lens, first, stream, expect=True, extra_texts=(), extra_probes=(), head='case', tail=()):
     codes = mapped_codes(defs)
     # also the neighbours of every boundary, mapped or not
     near = []
@@ -356,8 +621,8 @@ def make_case(rng, defs, lens, first, stream, expect=True, extra_texts=(), extra
     tbytes += list(extra_texts)
     et += ['any'] * len(extra_texts)
     exp = L('expect', L('gets', *eg), L('texts', *et)) if expect else L('malformed')
-    line = L('case', rng.choice(ENCS), xb(stream), L('texts', *[xb(t) for t in tbytes]),
-             L('probes', *[L(str(c), str(ln)) for ln, c in probes]), exp)
+    line = L(head, rng.choice(ENCS), xb(stream), L('texts', *[xb(t) for t in tbytes]),
+             L('probes', *[L(str(c), str(ln)) for ln, c in probes]), exp, *tail)
     return line, len(texts)
 
 
@@ -419,6 +684,26 @@ def damage(rng, stream):
 def gen_cases(rng, tier):
     n = 1500 if tier == 'quick' else 40000
     cases = []
+    # cases whose CMap text is written by the extracted renderer of Spec/CMapRender.v
+    nr = 400 if tier == 'quick' else 10000
+    pend = []
+    for k in range(nr):
+        defs, lens, first = gen_table(rng)
+        secs = sections_of_defs(rng, defs, lens, first)
+        pend.append((defs, lens, first, secs, lay_layout(rng, secs)))
+    texts = extracted_render([(p[4], p[3]) for p in pend])
+    for (defs, lens, first, secs, lay), text in zip(pend, texts):
+        mine = L_render(lay, secs)
+        kind = 'render'
+        if text is None:
+            text, kind = mine, 'render-noextract'     # the runner could not be asked: the model still compares the text with its own
+        elif text != mine:
+            text, kind = mine, 'render-py-differs'    # the model will answer (res render-differs) on this one
+        garbage = [bytes(rng.randrange(256) for _ in range(rng.randint(1, 9))) for _ in range(2)]
+        line, nt = make_case(rng, defs, lens, first, text, True, garbage,
+                             [(rng.choice(lens), rng.randrange(1 << (8 * rng.choice(lens))))], head='render',
+                             tail=(sx_layout(lay), sx_secs(secs)))
+        cases.append((line, {'kind': kind, 'nontrivial': len(defs) >= 2 and nt > 0}))
     for k in range(n):
         defs, lens, first = gen_table(rng)
         r = rng.random()
@@ -448,7 +733,10 @@ SPEC = {
             'array ranges; BMP, surrogate-pair, ligature and multi-unit targets) put through adversarial transforms '
             '(split, bfchar inside a range, adjacent equal targets/arrays, redefinition, overlap, cover, re-merge), '
             'rendered with random sectioning, bfchar-as-bfrange, counts, hex case, white space, comments, metadata, '
-            'codespace placement; texts over mapped codes (expectation from the table) plus random bytes; 20 kinds of '
+            'codespace placement; texts over mapped codes (expectation from the table) plus random bytes; a fifth of the '
+            'well-formed cases (kind render) carry a random LAYOUT and the text written for it by the extracted renderer of '
+            'Spec/CMapRender.v (the runner refuses a text that is not its own and re-checks the round-trip theorem on it; a '
+            'second rendering in Python must agree byte for byte); 20 kinds of '
             'damage compared by outcome class; non-trivial = at least 2 definitions and one text, or damaged; '
             'distinct = distinct case text',
     'extra_trusted': [
